@@ -90,7 +90,8 @@ class Check:
                 knownhits.append((o, hit))
             else:
                 viol.append(o)
-        wdir = os.path.join(VERIF, 'out', 'witness')
+        noev = bool(os.environ.get('ASL_NO_EVIDENCE'))
+        wdir = os.path.join(VERIF, 'out', 'witness-scratch' if noev else 'witness')
         os.makedirs(wdir, exist_ok=True)
         for o, k in knownhits:
             print('KNOWN-FINDING: property=%s rule=%s instance=%s %s' % (pid, o['rule'], o['key'], k.text))
@@ -104,7 +105,8 @@ class Check:
                        'witness_path': o['witness']}, open(wp, 'w'), indent=1)
             print('%s: %s [%s] %s' % (o['loc'], o['rule'], o['key'], o['detail']))
             print('VIOLATION property=%s replay=%s' % (pid, wp))
-        self.write_evidence(len(viol), knownhits)
+        if not noev:
+            self.write_evidence(len(viol), knownhits)
         per = collections.Counter()
         for o in self.obligations:
             per[o['rule']] += 1
